@@ -62,7 +62,7 @@ def bits_of_lin(x):
 
 def bits_of_atom(a):
     k = a[0]
-    if k in ('reg', 'undef', 'fundef', 'spad', 'litpool', 'frame'):
+    if k in ('reg', 'undef', 'fundef', 'spad', 'litpool', 'frame', 'item'):
         return [frozenset([(a, i)]) for i in range(64)]
     if k == 'xor':
         return _xor(bits_of_lin(V.lin_of(a[1])), bits_of_lin(V.lin_of(a[2])))
